@@ -598,6 +598,7 @@ fn k_mode(w: &[&str]) -> String {
 //           member='M1'; `**` = type='signal'); equal specs are equal rules
 //   steps = joined by `,`:
 //           A<s>:<j>:<q|->  start MessageStream::for_match_rule(rule j, conn, max_queued q) for stream id s and poll it once
+//                           (skipped, `-`, while two creations are pending; likewise x while two async drops are pending)
 //           a<s>            poll that pending creation again
 //           U<s>            MessageStream::from(&conn) (unfiltered) as stream s
 //           p<s>            poll stream s once (poll_next)
@@ -820,8 +821,14 @@ impl SState {
         let args: Vec<&str> = tok[1..].split(':').collect();
         let num = |i: usize| -> Option<usize> { args.get(i).and_then(|x| x.parse().ok()) };
         let res: String = match kind {
+            // at most two creations in flight (each pending one is a waiter on the two mutexes; what they do while waiting
+            // cannot be seen from outside, and the replay has to follow every possibility)
             'A' => match (num(0), num(1)) {
-                (Some(s), Some(j)) if j < self.rules.len() && !self.slots.contains_key(&s) => {
+                (Some(s), Some(j))
+                    if j < self.rules.len()
+                        && !self.slots.contains_key(&s)
+                        && self.slots.values().filter(|x| matches!(x, Slot::Adding(_))).count() < 2 =>
+                {
                     let q: Option<usize> = args.get(2).and_then(|x| x.parse().ok());
                     let rule = self.rules[j].clone();
                     let conn = self.conn.clone();
@@ -865,7 +872,10 @@ impl SState {
                 _ => "-".into(),
             },
             'x' => match num(0) {
-                Some(s) if matches!(self.slots.get(&s), Some(Slot::Live(_))) => {
+                Some(s)
+                    if matches!(self.slots.get(&s), Some(Slot::Live(_)))
+                        && self.slots.values().filter(|x| matches!(x, Slot::Dropping(_))).count() < 2 =>
+                {
                     if let Some(Slot::Live(st)) = self.slots.remove(&s) {
                         use zbus::AsyncDrop;
                         let f: DropFut = Box::pin(async move { st.async_drop().await });
@@ -930,6 +940,7 @@ impl SState {
     }
 
     fn drain(&mut self) {
+        let mut idle_rounds = 0;
         for _ in 0..2_000 {
             let mut moved = false;
             for _ in 0..2_000 {
@@ -958,7 +969,17 @@ impl SState {
                     }
                 }
             }
-            if !moved {
+            if moved {
+                idle_rounds = 0;
+                continue;
+            }
+            idle_rounds += 1;
+            // a round in which nothing visible happened is final unless one of the two mutexes is held or being passed
+            // around among waiters (async_lock hands a free mutex to waiters in an order of its own: a poll may come back
+            // empty-handed although the mutex is free; each such round moves the line forward)
+            let sn = self.snap();
+            let busy = sn.starts_with("L;") || sn.contains(";L;");
+            if !busy || idle_rounds > 2 * self.slots.len() + 6 {
                 return;
             }
         }
